@@ -442,7 +442,15 @@ def lattice(quick):
             seen.add(k)
             rooms.append(spec)
     # the same call after a call that failed half-way on another recording (state left behind by the failed call)
-    hist = [dict(r, prior='failed_call') for r in rooms if r['fam'] != 'unl'][:: 7 if quick else 3][:40 if quick else 400]
+    def with_history(base, stride, cap):
+        return [dict(r, prior='failed_call') for r in base if r['fam'] != 'unl'][::stride][:cap]
+    if quick:
+        hist = with_history(rooms, 7, 40)
+    else:
+        # the thorough lattice contains every room of the quick one (checked in run): the quick history rooms, then more
+        hist = [r for r in lattice(True) if r.get('prior')]
+        seen_h = {_spec_key(r) for r in hist}
+        hist += [r for r in with_history(rooms, 3, 400) if _spec_key(r) not in seen_h]
     return rooms + hist
 
 
